@@ -4,6 +4,7 @@ use std::{fs::File, io::{BufWriter, Write}, sync::Arc};
 
 use rand::{rngs::StdRng, seq::SliceRandom, Rng, SeedableRng};
 use serde_json::json;
+use shred::DispatcherBuilder;
 use shredh::{
     execx::{run_dispatch, setup_world, ExecOpts, Mode},
     prog::{gen_prog, GenCfg, Variant},
@@ -20,6 +21,8 @@ fn main() {
         "lifecycle" => lifecycle_cmd(&a),
         #[cfg(feature = "parallel")]
         "async" => async_cmd(&a),
+        #[cfg(feature = "parallel")]
+        "rendezvous" => rendezvous_cmd(&a),
         _ => {
             eprintln!("usage: exec random ...");
             std::process::exit(2)
@@ -309,4 +312,120 @@ fn async_cmd(a: &Args) {
     }
     w.flush().unwrap();
     println!("{}", json!({"programs":count,"systems":nsys,"events":nev,"calls":ncall,"samples":samples}));
+}
+
+/// exec rendezvous ... : stages of rendezvous systems, widths 2..16, several execution
+/// contexts; a stall (20 s) counts only if it reproduces in two immediate repetitions
+#[cfg(feature = "parallel")]
+fn rendezvous_cmd(a: &Args) {
+    use shredh::rvx::*;
+    use shred::World;
+    use std::time::Duration;
+    let seed: u64 = a.num("seed", 1);
+    let out = a.get("out").expect("--out");
+    let wmax: usize = a.num("wmax", 16);
+    let reps: usize = a.num("reps", 3);
+    let timeout = Duration::from_millis(a.num("timeout-ms", 20000));
+    let mut rng = StdRng::seed_from_u64(seed);
+    let mut w = BufWriter::new(File::create(out).unwrap());
+    let cores = std::thread::available_parallelism().map(|n| n.get()).unwrap_or(1);
+    let contexts = ["user", "user_par", "default", "batch", "async", "foreign"];
+    let hint_sets: Vec<Vec<u8>> = vec![vec![3], vec![1], vec![5], vec![1, 5], vec![2, 3, 4], vec![1, 1, 2]];
+    let (mut runs, mut stalls, mut skipped) = (0usize, 0usize, 0usize);
+    let mut samples = Vec::new();
+    let widths: Vec<usize> = (2..=wmax).collect();
+    for &width in &widths {
+        for ctxname in contexts {
+            let hints = hint_sets.choose(&mut rng).unwrap().clone();
+            let extra = *[0usize, 1, 3].choose(&mut rng).unwrap();
+            if ctxname == "default" && cores < width {
+                skipped += 1;
+                continue;
+            }
+            // one attempt = build + `reps` dispatches; returns the events and whether any system timed out
+            let attempt = |reps: usize| -> (Vec<serde_json::Value>, bool) {
+                let rv = Rv::new(width, timeout);
+                let psize = width + extra + if ctxname == "batch" || ctxname == "async" { 1 } else { 0 };
+                let mut evs = Vec::new();
+                let mut any_to = false;
+                let world = World::empty();
+                let inner = rv_builder(&rv, &hints);
+                let lay = inner.verif_layout();
+                let (stages, wd) = (lay.stages.len(), lay.stages.iter().map(|s| s.len()).max().unwrap_or(0));
+                let pool_of = |n: usize| pool(n);
+                for _ in 0..reps {
+                    rv.reset();
+                    rv.log.lock().unwrap().clear();
+                    evs.push(json!({"ev":"rvbegin","w":width,"pool": if ctxname == "default" { cores } else { psize },"ctx":ctxname,
+                                    "stages":stages,"width":wd,"hints":hints}));
+                    match ctxname {
+                        "user" | "user_par" | "default" | "foreign" => {
+                            let mut b = rv_builder(&rv, &hints);
+                            if ctxname != "default" {
+                                b.add_pool(pool_of(psize));
+                            }
+                            let mut d = b.build();
+                            match ctxname {
+                                "user_par" => d.dispatch_par(&world),
+                                "foreign" => {
+                                    // dispatch called from a worker of ANOTHER (single-threaded) pool
+                                    let other = pool_of(1);
+                                    let mut sd = d.try_into_sendable().ok().expect("no thread-local systems");
+                                    let wref = &world;
+                                    other.install(move || sd.dispatch(wref));
+                                }
+                                _ => d.dispatch(&world),
+                            }
+                        }
+                        "batch" => {
+                            let mut d = DispatcherBuilder::new()
+                                .with_pool(pool_of(psize))
+                                .with_batch(RvCtl, rv_builder(&rv, &hints), "batch", &[])
+                                .build();
+                            d.dispatch(&world);
+                        }
+                        _ => {
+                            let mut ad = rv_builder(&rv, &hints).with_pool(pool_of(psize)).build_async(World::empty());
+                            ad.dispatch();
+                            ad.wait();
+                        }
+                    }
+                    let log = std::mem::take(&mut *rv.log.lock().unwrap());
+                    let to = log.iter().any(|e| e["timedout"] == true);
+                    any_to |= to;
+                    evs.extend(log);
+                    evs.push(json!({"ev":"rvend","stalled":to}));
+                    if to {
+                        break;
+                    }
+                }
+                (evs, any_to)
+            };
+            let (mut evs, mut stalled) = attempt(reps);
+            if stalled {
+                // S2: a stall is only believed if it reproduces twice more, immediately
+                let (e2, s2) = attempt(1);
+                let (e3, s3) = attempt(1);
+                if s2 && s3 {
+                    stalls += 1;
+                    evs = e3;
+                    let _ = e2;
+                } else {
+                    stalled = false;
+                    // keep only the non-stalled evidence
+                    evs = if !s2 { e2 } else { e3 };
+                }
+            }
+            let _ = stalled;
+            runs += 1;
+            let mut all = vec![json!({"ev":"reset","prog":runs,"var":0})];
+            all.extend(evs);
+            if samples.len() < 3 {
+                samples.push(all.get(1).cloned().unwrap_or_default());
+            }
+            write_events(&mut w, &all);
+        }
+    }
+    w.flush().unwrap();
+    println!("{}", json!({"runs":runs,"stalls":stalls,"skipped_default_pool":skipped,"cores":cores,"samples":samples}));
 }
